@@ -39,7 +39,7 @@ ASSUMPTIONS = [
 # ------------------------------------------------------------------------------------ generator construction and hand-over
 def cases_rng(tier):
     for nsamplers in (1, 2, 3):
-        for seed in ((1,), (7, 11)):
+        for seed in ((1,), (7, 11)) + (((0,), (2**32 + 5,)) if tier == "thorough" else ()):
             yield "samplers=%d/seed=%s" % (nsamplers, seed), {"nsamplers": nsamplers, "seed": list(seed)}
 
 
@@ -204,9 +204,10 @@ def scn_options(T, case):
 def cases_order(tier):
     import itertools
 
-    for assign in itertools.product((-1, 0, 1, 2), repeat=3):
-        if len({a for a in assign if a >= 0}) >= 2:
-            yield "samplers=%s" % (list(assign),), {"assign": list(assign)}
+    for n in (3,) + ((4,) if tier == "thorough" else ()):
+        for assign in itertools.product((-1, 0, 1, 2), repeat=n):
+            if len({a for a in assign if a >= 0}) >= 2:
+                yield "samplers=%s" % (list(assign),), {"assign": list(assign)}
 
 
 def scn_order(T, case):
